@@ -286,6 +286,21 @@ def _eval_atom(a, values):
     return Fraction(r)
 
 
+class AutoRegion(dict):
+    """A region that gives every plain atom without an explicit representative a fixed, generic, positive value
+    (for interpreting code whose guards test symbolic DATA against 0: yields and uncertainties are positive)."""
+
+    def __contains__(self, a):
+        return dict.__contains__(self, a) or a not in _ATOMS
+
+    def __missing__(self, a):
+        import zlib
+        h = zlib.crc32(a.encode())
+        v = Fraction(3 + h % 97, 1 + (h >> 8) % 5)
+        self[a] = v
+        return v
+
+
 def plain_atoms(p, acc=None):
     """Plain (unstructured) atom names occurring in a Poly, recursively through structured atoms."""
     acc = set() if acc is None else acc
@@ -430,6 +445,10 @@ class Shape:
 SHAPE = Shape()
 
 
+class NotHandled(Exception):
+    """Raised by a method model that does not apply to the receiver it was given."""
+
+
 class RaisedInFragment(Undecided):
     """The interpreted fragment reaches a `raise` statement on the analysed configuration."""
 
@@ -517,7 +536,7 @@ class Interp:
         self.externals = externals or {}  # call name -> f(args, kwargs) modelling a callee outside the fragment
         self.env = dict(env or {})
         self.selfattrs = selfattrs if selfattrs is not None else {}
-        self.region = dict(region or {})  # atom -> Fraction representative (decides comparisons)
+        self.region = region if isinstance(region, AutoRegion) else dict(region or {})  # atom -> Fraction representative (decides comparisons)
         self.methods = methods or {}  # name -> FunctionDef for self.method(...) inlining
         self.cls_name = cls_name
         self.thresholds_seen = []  # (lhs poly, op, rhs poly) for every decided comparison
@@ -621,7 +640,11 @@ class Interp:
                 try:
                     self.eval(st.value)
                 except Undecided:
-                    pass
+                    # strict mode (object-model interpretation): a statement whose effect cannot be modelled makes
+                    # the whole fragment undecided, except pure diagnostics
+                    root = (A.dotted(st.value.func) or "").split(".")[0]
+                    if self.externals.get("__strict__") and root not in ("log", "logging", "warnings", "logger", "print"):
+                        raise
         elif isinstance(st, ast.Try):
             # the normal (non-raising) path: body, else, finally; exceptions modelled by the interpreter itself
             # (AttributeError on a closed object) are dispatched to the matching handler
@@ -782,6 +805,9 @@ class Interp:
                 k = self._mangle(e.attr)
                 if k in self.selfattrs:
                     return self.selfattrs[k]
+                if e.attr in self.methods:
+                    node = self.methods[e.attr]
+                    return PyFunc(lambda a, kw, node=node: self.call_function(node, a, kw, bind_self=True), f"self.{e.attr}")
                 raise Undecided(f"unknown attribute self.{e.attr}")
             if A.dotted(e) in HANDLE_NAMES:
                 return MODULE
@@ -1021,9 +1047,16 @@ class Interp:
             if "." + f.attr in self.externals and recv is not None:
                 xa = self.eval_args(e.args)
                 xk = {k.arg: self.eval(k.value) for k in e.keywords if k.arg}
-                return self.externals["." + f.attr](recv, xa, xk)
+                try:
+                    return self.externals["." + f.attr](recv, xa, xk)
+                except NotHandled:
+                    pass  # the model does not apply to this receiver: python's own semantics below
             if isinstance(recv, Obj):
-                xa = [to_poly(self.eval(a)) for a in e.args]
+                vals = self.eval_args(e.args)
+                try:
+                    xa = [to_poly(v) for v in vals]
+                except Undecided:
+                    return Obj(f"{recv.name}.{f.attr}(...)")  # opaque call on an opaque object with structured arguments
                 return fn(f.attr, Poly.atom(recv.name), *xa)
             if isinstance(recv, (Poly, list)) and f.attr in ("detach", "numpy", "clone", "cpu", "item", "copy", "tolist", "astype", "flatten"):
                 return recv
